@@ -312,6 +312,31 @@ Proof.
   apply PresI_remove_cp. exact Hi.
 Qed.
 
+Lemma PresI_prune_if8 i : PresI (prune_if8 i).
+Proof.
+  unfold prune_if8, exists_as. apply PresI_bind_get. intros s [C HI].
+  destruct (has_node (fst s) i && cls_eqb (class_of (fst s) i) CCP) eqn:Eb; [|apply PresI_ret].
+  apply andb_true_iff in Eb. destruct Eb as [Hh Hc]. destruct (cons_has g0 s i C Hh) as [Hd _].
+  assert (Hi : class_of g0 i = CCP).
+  { rewrite <- (cons_class g0 s i C Hd). destruct (class_of (fst s) i); simpl in Hc; try discriminate; reflexivity. }
+  apply PresI_bind'; [apply PresI_get | intros ifs].
+  apply PresI_bind'; [apply PresI_for_each_set; intros j _; apply PresI_disconnect_step | intros _].
+  apply PresI_bind'; [apply PresI_get | intros dp]. apply PresI_remove_cp. exact Hi.
+Qed.
+
+Lemma PresI_api_prune8 : PresI api_prune8.
+Proof.
+  unfold api_prune8.
+  apply PresI_bind'; [apply PresI_get | intros ns_].
+  apply PresI_bind'; [apply PresI_get | intros cs].
+  apply PresI_bind'; [apply PresI_get | intros ss].
+  apply PresI_bind'; [apply PresI_get | intros is_].
+  apply PresI_bind'; [apply PresI_for_each_set; intros nn _; unfold prune_node7, exists_as; apply PresI_guarded; apply PresI_api_remove_node | intros _].
+  apply PresI_bind'; [apply PresI_for_each_set; intros cn _; unfold prune_comp7, exists_as; apply PresI_guarded; apply PresI_api_remove_component | intros _].
+  apply PresI_bind'; [apply PresI_for_each_set; intros s _; unfold prune_ns7, exists_as; apply PresI_guarded; apply PresI_remove_ns_disconnecting | intros _].
+  apply PresI_for_each_set. intros i _. apply PresI_prune_if8.
+Qed.
+
 Lemma PresI_api_prune7 : PresI api_prune7.
 Proof.
   unfold api_prune7.
@@ -359,4 +384,5 @@ Proof.
     refine (PresI_bind' g I _ _ (PresI_api_remove_child g I Hc p iname _) (fun c => PresI_ret g I _) _ _ _ J0 E).
   - exact (proj2 (T _ (PresI_api_prune g I Hd Hc) _ _ _ J0 E)).
   - exact (proj2 (T _ (PresI_api_prune7 g I Hd Hc) _ _ _ J0 E)).
+  - exact (proj2 (T _ (PresI_api_prune8 g I Hd Hc) _ _ _ J0 E)).
 Qed.
